@@ -199,3 +199,15 @@ def run(ctx):
                     ok = True
         ctx.check(ok, "R4", f"{qual.split('.')[1]} passes table= to formula()", "table is dropped", fsite(ctx, qual))
     ctx.floor("R4", 7)
+    # building one table leaves the module-level element data as it was: the next table gets the same elements
+    wa = world(ctx)
+    Ia = wa.I
+    Tb = Ia.instantiate(Ia.get_class("core.PeriodicTable"), ["later"], {}, name="Tb", open_attrs=())
+    diff = []
+    for sym_ in ("H", "He", "Fe", "O", "U", "Cu"):
+        a_, b_ = Ia.heap[wa.element(sym_).id], Ia.heap[Ia.getattr(Tb, sym_).id]
+        for k_ in ("ions", "name", "number", "symbol"):
+            if a_.get(k_) != b_.get(k_):
+                diff.append((sym_, k_, a_.get(k_), b_.get(k_)))
+    ctx.check(not diff, "R3", "a table created later has the same element data (symbol, name, oxidation states) as one created earlier",
+              f"{diff[:3]}", fsite(ctx, "core.PeriodicTable.__init__"))
